@@ -28,10 +28,11 @@ def gen(rng, tier):
         try:
             dobj = xmlgen.load(xmlgen.document_xml(doc, ns), ns)
         except Exception:  # noqa: BLE001
-            continue
+            dobj = None       # the case is kept: a generated document that does not load is itself a disagreement with the model
         pkts = []
         for _j in range(rng.randrange(1, 7)):
-            pkts += defgen.fit_packet(dobj, defgen.rnd_packet(rng, rng.randrange(1, 30)))[:rng.choice([1, 1, 2, 3])]
+            pk = defgen.rnd_packet(rng, rng.randrange(1, 30))
+            pkts += (defgen.fit_packet(dobj, pk) if dobj is not None else [pk])[:rng.choice([1, 1, 2, 3])]
         rng.shuffle(pkts)
         opts = dict(genrun.DEFAULT_OPTS, parse_bad_pkts=rng.random() < 0.7, yield_unrecognized=rng.random() < 0.5)
         cases.append({"doc": doc, "ns": list(ns), "opts": opts, "packets": [p.hex() for p in pkts[:12]]})
